@@ -284,11 +284,27 @@ func (route *GrafanaNet) run(in chan []byte) {
 			timer.Reset(route.Cfg.FlushMaxWait)
 			metrics = route.retryFlush(metrics, buffer)
 		case <-route.shutdown:
+			// take what is still buffered for this shard, flush it, and report completion
+			for draining := true; draining; {
+				select {
+				case buf := <-in:
+					route.numBuffered.Dec(1)
+					md, err := parseMetric(buf, route.schemas, route.Cfg.OrgID)
+					if err != nil {
+						log.Errorf("RouteGrafanaNet: parseMetric failed: %s. skipping metric", err)
+						continue
+					}
+					md.SetId()
+					metrics = append(metrics, md)
+				default:
+					draining = false
+				}
+			}
 			metrics = route.retryFlush(metrics, buffer)
+			route.wg.Done()
 			return
 		}
 	}
-	route.wg.Done()
 }
 
 func (route *GrafanaNet) retryFlush(metrics []*schema.MetricData, buffer *bytes.Buffer) []*schema.MetricData {
@@ -462,8 +478,8 @@ func (route *GrafanaNet) postConfig(path, cfg string) {
 func (route *GrafanaNet) Shutdown() error {
 	//conf := route.config.Load().(Config)
 
-	// trigger all of our queues to be flushed to the tsdb-gw
-	route.shutdown <- struct{}{}
+	// trigger all of our queues to be flushed to the tsdb-gw: every worker must see the signal
+	close(route.shutdown)
 
 	// wait for all tsdb-gw writes to complete.
 	route.wg.Wait()
